@@ -31,19 +31,31 @@ var errInconclusive = errors.New("harness: bounded wait expired")
 const wait = 30 * time.Second
 
 // Ports come from a block that belongs to this process, below the kernel's ephemeral range:
-// 10000 + (pid mod 400)*50 + k.  Nothing else on the box hands these out, so a port that one
+// 10000 + (pid mod 110)*200 + k.  Nothing else on the box hands these out, so a port that one
 // of our remotes has just released is not taken by somebody else before the check dials it,
-// and an address nobody listens on stays that way.
-var portCounter atomic.Int64
+// and an address nobody listens on stays that way.  Inside the process an address that was
+// handed out stays owned until it is given back (a peer that is stopped and restarted on
+// the same address keeps it in between).
+var (
+	portCounter atomic.Int64
+	ownedMu     sync.Mutex
+	owned       = map[string]bool{}
+)
 
 func nextPort() int {
-	return 10000 + (os.Getpid()%400)*50 + int(portCounter.Add(1)%50)
+	return 10000 + (os.Getpid()%110)*200 + int(portCounter.Add(1)%200)
 }
 
 func freeAddr() (string, error) {
 	var last error
-	for try := 0; try < 50; try++ {
+	for try := 0; try < 200; try++ {
 		a := fmt.Sprintf("127.0.0.1:%d", nextPort())
+		ownedMu.Lock()
+		taken := owned[a]
+		ownedMu.Unlock()
+		if taken {
+			continue
+		}
 		l, err := stdnet.Listen("tcp", a)
 		if err != nil {
 			last = err
@@ -52,7 +64,20 @@ func freeAddr() (string, error) {
 		l.Close()
 		return a, nil
 	}
+	if last == nil {
+		last = errors.New("no free port in this process's block")
+	}
 	return "", last
+}
+
+func own(a string, on bool) {
+	ownedMu.Lock()
+	if on {
+		owned[a] = true
+	} else {
+		delete(owned, a)
+	}
+	ownedMu.Unlock()
 }
 
 // reserve binds a TCP socket to a free loopback port without listening on it: connection
@@ -120,8 +145,8 @@ type Step struct {
 }
 
 type FCase struct {
-	TB      int      `json:"tb"` // targets on node B
-	TC      int      `json:"tc"` // targets on node C (0 = no third node)
+	TB      int      `json:"tb"`      // targets on node B
+	TC      int      `json:"tc"`      // targets on node C (0 = no third node)
 	Scripts [][]Step `json:"scripts"` // one per sender goroutine on node A
 }
 
